@@ -437,6 +437,13 @@ func registerStdIntrinsics(in map[string]Intrinsic) {
 		s := getPath(w.st.load(p.O), p.Path).(*StructV)
 		return s.F[0], ctlNext
 	}
+	in["(*sync/atomic.Value).Swap"] = func(w *Worker, g *G, fr *Frame, fn *ssa.Function, a []Value) (Value, ctl) {
+		p := a[0].(PtrV)
+		s := getPath(w.st.load(p.O), p.Path).(*StructV)
+		old := s.F[0]
+		w.storePtr(g, PtrV{O: p.O, Path: appendPath(p.Path, 0)}, a[1])
+		return old, ctlNext
+	}
 	in["(*sync/atomic.Value).Store"] = func(w *Worker, g *G, fr *Frame, fn *ssa.Function, a []Value) (Value, ctl) {
 		p := a[0].(PtrV)
 		w.storePtr(g, PtrV{O: p.O, Path: appendPath(p.Path, 0)}, a[1])
